@@ -47,6 +47,12 @@ def oracle(policy, actions, recs, snap):
                     key = 'c09:member-alive-at-join-exit'
                 bad.append((key, f'join exit ({o}) at step {idx} ({a}) with members {alive} '
                                  f'still running'))
+    mic = snap.get('micro')
+    if mic and mic['exit_seen'] and mic['alive_at_exit']:
+        bad.append(('c09:member-alive-at-join-exit',
+                    f'tasks {mic["alive_at_exit"]} that the group had accepted (adds attempted at '
+                    f'every loop iteration while the join was finishing: accepted {mic["accepted"]}) '
+                    f'were still running when join returned'))
     if str(snap.get('add_after_join', '')).startswith('accepted'):
         bad.append(('c09:add-after-join', 'a task was accepted by a group whose join completed: '
                     + snap['add_after_join']))
@@ -79,9 +85,10 @@ def _work(args):
     repo, seed, n, steps = args
     r = random.Random(seed)
     out = []
-    for _ in range(n):
+    for k in range(n):
         pol = r.choice(['all', 'any', 'object', 'none'])
-        out.append((pol,) + TG.run_trace(repo, pol, r, max_steps=steps))
+        out.append((pol,) + TG.run_trace(repo, pol, r, max_steps=steps,
+                                         micro_rng=r if k % 4 == 0 else None))
     return out
 
 
